@@ -464,6 +464,340 @@ theorem smPa_start (pre t : Buf) (o : Nat) (c : PPAIs) (m : Nat) (hfit : pre.siz
   rw [e, parseAllPAIValues_eq_wrap, parseAllPAIValues_eq_wrap, shPa_wrap, paBump_wrap]
   exact paisLoop_shift' pre t o _ hfit (PaShift.start hI o ho m)
 
+
+/-! ### legitimate header values for the shift theorems -/
+
+/-- **what the shift theorems need of the header-values object** at offset `o`, in addition to the panic-freedom
+    invariant `HvSafe` (which bounds every position from above): the name-addr objects satisfy the entry conditions of
+    ShiftNA / ShiftLists (`SlEl`: set positions are not zero, a completed value is not the zero field), the typed
+    values lie at positions `≥ 1` (`CiLoI 1` …: a header value never starts at buffer offset 0, so "zero field = not
+    set" is unambiguous for the value of the header), and a value list in progress is legitimate (`CtShift`) -/
+structure HvSh (t : Buf) (o : Nat) (st : HState) (hv : PHdrVals) : Prop where
+  from_ : SlEl t o 0 hv.from_
+  to : SlEl t o 0 hv.to
+  callid : CiLoI 1 o hv.callid
+  cseqP : CsPos o hv.cseq
+  cseqL : CsLoI 1 o hv.cseq
+  clen : ClLoI 1 o hv.clen
+  expires : ClLoI 1 o hv.expires
+  ct : st = .hContact → CtShift t o hv.contacts
+  pa : st = .hPAI → PaShift t o hv.pais
+
+theorem smCsPos_mono {o o' : Nat} {st : PCSeqBody} (h : CsPos o st) (h1 : o ≤ o') : CsPos o' st :=
+  ⟨fun hh => by have := h.1 hh; omega, h.2⟩
+
+/-- moving on, in a header state that is not "inside a value list" -/
+theorem HvSh.monoNV {t : Buf} {o o' : Nat} {st st' : HState} {hv : PHdrVals} (h : HvSh t o st hv) (h1 : o ≤ o')
+    (h2 : o' ≤ t.size) (n1 : st' ≠ .hContact) (n2 : st' ≠ .hPAI) : HvSh t o' st' hv :=
+  ⟨smSlEl_mono h.from_ h1 h2, smSlEl_mono h.to h1 h2, h.callid.mono h1, smCsPos_mono h.cseqP h1, h.cseqL.mono h1,
+   h.clen.mono h1, h.expires.mono h1, fun hh => absurd hh n1, fun hh => absurd hh n2⟩
+
+theorem smCsPos_new (o : Nat) : CsPos o {} :=
+  ⟨fun hh => absurd rfl hh, fun hh => by rcases hh with hh | hh <;> cases hh⟩
+
+/-- a new values object (any contact capacity) is legitimate at any offset, in any header state -/
+theorem HvSh_new (t : Buf) (o : Nat) (ho : o ≤ t.size) (st : HState) (m : Nat) :
+    HvSh t o st ({ contacts := { vals := Array.replicate m {} } } : PHdrVals) :=
+  ⟨SlEl_new t o 0 ho (Nat.zero_le _), SlEl_new t o 0 ho (Nat.zero_le _), CiLoI_init 1 o _ rfl, smCsPos_new o,
+   CsLoI_init 1 o _ rfl, ClLoI_init 1 o _ rfl, ClLoI_init 1 o _ rfl, fun _ => CtShift_new t o ho m,
+   fun _ => PaShift_new t o ho⟩
+
+/-! ### the header-value dispatch -/
+
+theorem shHv_from (k : Nat) (hv : PHdrVals) : (shHv k hv).from_ = shNa k hv.from_ := rfl
+theorem shHv_to (k : Nat) (hv : PHdrVals) : (shHv k hv).to = shNa k hv.to := rfl
+theorem shHv_callid (k : Nat) (hv : PHdrVals) : (shHv k hv).callid = shCi k hv.callid := rfl
+theorem shHv_cseq (k : Nat) (hv : PHdrVals) : (shHv k hv).cseq = shCs k hv.cseq := rfl
+theorem shHv_clen (k : Nat) (hv : PHdrVals) : (shHv k hv).clen = shCl k hv.clen := rfl
+theorem shHv_contacts (k : Nat) (hv : PHdrVals) : (shHv k hv).contacts = shCt k hv.contacts := rfl
+theorem shHv_pais (k : Nat) (hv : PHdrVals) : (shHv k hv).pais = shPa k hv.pais := rfl
+theorem shHv_expires (k : Nat) (hv : PHdrVals) : (shHv k hv).expires = shCl k hv.expires := rfl
+
+theorem smNa_parsed (k : Nat) (pf : PFromBody) : (shNa k pf).parsed = pf.parsed := rfl
+theorem smCi_parsed (k : Nat) (st : PCallIDBody) : (shCi k st).parsed = st.parsed := by
+  unfold PCallIDBody.parsed; rw [shCi_state]
+theorem smCl_parsed (k : Nat) (st : PUIntBody) : (shCl k st).parsed = st.parsed := by
+  unfold PUIntBody.parsed; rw [shCl_state]
+theorem smCs_parsed (k : Nat) (st : PCSeqBody) : (shCs k st).parsed = st.parsed := by
+  unfold PCSeqBody.parsed; rw [shCs_state]
+
+/-- the header returned by the dispatch: state and value updated -/
+theorem smHdr_val (k : Nat) (h : Hdr) (S : HState) (e : Err) (V V' : PField)
+    (hs : shHn k S h.name = shHn k h.state h.name) (hV : e = .ok → V' = shO k V) :
+    ({ shHdr k h with state := S, val := if e == .ok then V' else (shHdr k h).val } : Hdr) =
+      shHdr k { h with state := S, val := if e == .ok then V else h.val } := by
+  unfold shHdr
+  simp only [hs]
+  by_cases he : e = .ok
+  · subst he; simp only [hV rfl, beq_self_eq_true, ↓reduceIte]
+  · have : (e == Err.ok) = false := by simpa using he
+    simp only [this, Bool.false_eq_true, ↓reduceIte]
+
+theorem smExact_ok_or {e : Err} (h : smExact e) (hne : e ≠ .empty) : e = .ok ∨ e = .moreBytes := by
+  rcases h with h | h | h
+  · exact Or.inl h
+  · exact Or.inr h
+  · exact absurd h hne
+
+theorem smParseBody (pre t : Buf) (o : Nat) (h : Hdr) (hv : PHdrVals) (hfit : pre.size + t.size ≤ 65535) (h1 : 1 ≤ o)
+    (ho : o ≤ t.size) (hst : h.state = .bodyStart) (hok : hvOK t o hv) (hS : HvSafe t o .bodyStart hv)
+    (hX : HvSh t o .bodyStart hv) {n : Nat} {e : Err} {h2 : Hdr} {hb2 : Option PHdrVals}
+    (hr : parseBody t o h (some hv) = (n, e, h2, hb2)) :
+    ∃ hv2 hv2', hb2 = some hv2 ∧
+      parseBody (pre ++ t) (pre.size + o) (shHdr pre.size h) (some (shHv pre.size hv)) =
+        (pre.size + n, e, shHdr pre.size h2, some hv2') ∧
+      smHvObs hv2' = smHvObs (shHv pre.size hv2) ∧ (smExact e → hv2' = shHv pre.size hv2) ∧
+      (e = .ok → HvSh t n .fin hv2) ∧ (e = .moreBytes → HvSh t n h2.state hv2) := by
+  have hn1 : HState.fin ≠ .hContact := by decide
+  have hn2 : HState.fin ≠ .hPAI := by decide
+  have hrange : (e = .ok ∨ e = .moreBytes) → o ≤ n ∧ n ≤ t.size := by
+    intro he
+    rcases he with rfl | rfl
+    · have := parseBody_post t o h (some hv) hok ho hr; exact ⟨this.1, this.2.1⟩
+    · have := parseBody_restart t #[] o h (some hv) ho hok hr; exact ⟨this.2.2.1, this.2.2.2.1⟩
+  have hsn : ∀ S : HState, S ≠ .init → S ≠ .fin → shHn pre.size S h.name = shHn pre.size h.state h.name := by
+    intro S s1 s2
+    rw [hst]
+    cases S <;> first | rfl | exact absurd rfl s1 | exact absurd rfl s2
+  unfold parseBody parseFromVal at hr ⊢
+  simp only [shHdr_type, shHv_from, shHv_to, shHv_callid, shHv_cseq, shHv_clen, shHv_contacts, shHv_pais,
+    shHv_expires, smNa_parsed, smCi_parsed, smCl_parsed, smCs_parsed] at hr ⊢
+  have hskip : ∀ {n : Nat} {e : Err} {h2 : Hdr} {hb2 : Option PHdrVals}, (o, Err.ok, h, some hv) = (n, e, h2, hb2) →
+      ∃ hv2 hv2', hb2 = some hv2 ∧
+        (pre.size + o, Err.ok, shHdr pre.size h, some (shHv pre.size hv)) = (pre.size + n, e, shHdr pre.size h2, some hv2') ∧
+        smHvObs hv2' = smHvObs (shHv pre.size hv2) ∧ (smExact e → hv2' = shHv pre.size hv2) ∧
+        (e = .ok → HvSh t n .fin hv2) ∧ (e = .moreBytes → HvSh t n h2.state hv2) := by
+    intro n e h2 hb2 hh
+    simp only [Prod.mk.injEq] at hh
+    obtain ⟨rfl, rfl, rfl, rfl⟩ := hh
+    exact ⟨hv, _, rfl, rfl, rfl, fun _ => rfl, fun _ => hX.monoNV (Nat.le_refl _) ho hn1 hn2, fun hh => by cases hh⟩
+  by_cases h_from_ : (h.type == HdrFrom) = true
+  · simp only [h_from_, ↓reduceIte] at hr ⊢
+    by_cases hp : (!hv.from_.parsed) = true
+    · simp only [hp, ↓reduceIte] at hr ⊢
+      rcases hq : parseNameAddrPVal HdrFrom t o hv.from_ with ⟨n1, e1, f1⟩
+      rw [hq] at hr; simp only [Prod.mk.injEq] at hr
+      obtain ⟨rfl, rfl, rfl, rfl⟩ := hr
+      obtain ⟨f', c1, c2, c3, c4, c5⟩ := smNa_call HdrFrom pre t o hv.from_ hfit hX.from_ hq
+      simp only [c1]
+      refine ⟨_, { shHv pre.size hv with from_ := f' }, rfl, ?_, ?_, ?_, ?_, ?_⟩
+      · exact Prod.ext rfl (Prod.ext rfl (Prod.ext
+          (smHdr_val pre.size h .hFrom e1 f1.v f'.v (hsn _ (by decide) (by decide)) c4) rfl))
+      · unfold smHvObs shHv; simp only [c2]
+      · intro hx; rw [c3 hx]; rfl
+      · intro he
+        obtain ⟨d1, d2, d3⟩ := c5 (Or.inl he)
+        have hm := hX.monoNV d2 d3 hn1 hn2
+        exact ⟨d1, hm.to, hm.callid, hm.cseqP, hm.cseqL, hm.clen, hm.expires, hm.ct, hm.pa⟩
+      · intro he
+        obtain ⟨d1, d2, d3⟩ := c5 (Or.inr he)
+        have hm := hX.monoNV (st' := .hFrom) d2 d3 (by decide) (by decide)
+        exact ⟨d1, hm.to, hm.callid, hm.cseqP, hm.cseqL, hm.clen, hm.expires, hm.ct, hm.pa⟩
+    · simp only [hp, Bool.false_eq_true, ↓reduceIte] at hr ⊢
+      exact hskip hr
+  simp only [h_from_, Bool.false_eq_true, ↓reduceIte] at hr ⊢
+
+  by_cases h_to : (h.type == HdrTo) = true
+  · simp only [h_to, ↓reduceIte] at hr ⊢
+    by_cases hp : (!hv.to.parsed) = true
+    · simp only [hp, ↓reduceIte] at hr ⊢
+      rcases hq : parseNameAddrPVal HdrTo t o hv.to with ⟨n1, e1, f1⟩
+      rw [hq] at hr; simp only [Prod.mk.injEq] at hr
+      obtain ⟨rfl, rfl, rfl, rfl⟩ := hr
+      obtain ⟨f', c1, c2, c3, c4, c5⟩ := smNa_call HdrTo pre t o hv.to hfit hX.to hq
+      simp only [c1]
+      refine ⟨_, { shHv pre.size hv with to := f' }, rfl, ?_, ?_, ?_, ?_, ?_⟩
+      · exact Prod.ext rfl (Prod.ext rfl (Prod.ext
+          (smHdr_val pre.size h .hTo e1 f1.v f'.v (hsn _ (by decide) (by decide)) c4) rfl))
+      · unfold smHvObs shHv; simp only [c2]
+      · intro hx; rw [c3 hx]; rfl
+      · intro he
+        obtain ⟨d1, d2, d3⟩ := c5 (Or.inl he)
+        have hm := hX.monoNV d2 d3 hn1 hn2
+        exact ⟨hm.from_, d1, hm.callid, hm.cseqP, hm.cseqL, hm.clen, hm.expires, hm.ct, hm.pa⟩
+      · intro he
+        obtain ⟨d1, d2, d3⟩ := c5 (Or.inr he)
+        have hm := hX.monoNV (st' := .hTo) d2 d3 (by decide) (by decide)
+        exact ⟨hm.from_, d1, hm.callid, hm.cseqP, hm.cseqL, hm.clen, hm.expires, hm.ct, hm.pa⟩
+    · simp only [hp, Bool.false_eq_true, ↓reduceIte] at hr ⊢
+      exact hskip hr
+  simp only [h_to, Bool.false_eq_true, ↓reduceIte] at hr ⊢
+  by_cases h_callid : (h.type == HdrCallID) = true
+  · simp only [h_callid, ↓reduceIte] at hr ⊢
+    by_cases hp : (!hv.callid.parsed) = true
+    · simp only [hp, ↓reduceIte] at hr ⊢
+      rcases hq : parseCallIDVal t o hv.callid with ⟨n1, e1, f1⟩
+      rw [hq] at hr; simp only [Prod.mk.injEq] at hr
+      obtain ⟨rfl, rfl, rfl, rfl⟩ := hr
+      obtain ⟨c1, c4, c5, _, _⟩ := smCi_call pre t o hv.callid hfit h1 hS.callid hX.callid hq
+      simp only [c1]
+      refine ⟨_, shHv pre.size { hv with callid := f1 }, rfl, ?_, rfl, fun _ => rfl, ?_, ?_⟩
+      · exact Prod.ext rfl (Prod.ext rfl (Prod.ext
+          (smHdr_val pre.size h .hCallID e1 f1.callID _ (hsn _ (by decide) (by decide)) c4) rfl))
+      · intro he
+        obtain ⟨d2, d3⟩ := hrange (Or.inl he)
+        have hm := hX.monoNV d2 d3 hn1 hn2
+        exact ⟨hm.from_, hm.to, c5 (Or.inl he), hm.cseqP, hm.cseqL, hm.clen, hm.expires, hm.ct, hm.pa⟩
+      · intro he
+        obtain ⟨d2, d3⟩ := hrange (Or.inr he)
+        have hm := hX.monoNV (st' := .hCallID) d2 d3 (by decide) (by decide)
+        exact ⟨hm.from_, hm.to, c5 (Or.inr he), hm.cseqP, hm.cseqL, hm.clen, hm.expires, hm.ct, hm.pa⟩
+    · simp only [hp, Bool.false_eq_true, ↓reduceIte] at hr ⊢
+      exact hskip hr
+  simp only [h_callid, Bool.false_eq_true, ↓reduceIte] at hr ⊢
+  by_cases h_cseq : (h.type == HdrCSeq) = true
+  · simp only [h_cseq, ↓reduceIte] at hr ⊢
+    by_cases hp : (!hv.cseq.parsed) = true
+    · simp only [hp, ↓reduceIte] at hr ⊢
+      rcases hq : parseCSeqVal t o hv.cseq with ⟨n1, e1, f1⟩
+      rw [hq] at hr; simp only [Prod.mk.injEq] at hr
+      obtain ⟨rfl, rfl, rfl, rfl⟩ := hr
+      obtain ⟨c1, c4, c5⟩ := smCs_call pre t o hv.cseq hfit h1 hS.cseq hX.cseqP hX.cseqL hq
+      simp only [c1]
+      refine ⟨_, shHv pre.size { hv with cseq := f1 }, rfl, ?_, rfl, fun _ => rfl, ?_, ?_⟩
+      · exact Prod.ext rfl (Prod.ext rfl (Prod.ext
+          (smHdr_val pre.size h .hCSeq e1 f1.v _ (hsn _ (by decide) (by decide)) c4) rfl))
+      · intro he
+        obtain ⟨d0, d1, d2, d3⟩ := c5 (Or.inl he)
+        have hm := hX.monoNV d2 d3 hn1 hn2
+        exact ⟨hm.from_, hm.to, hm.callid, d0, d1, hm.clen, hm.expires, hm.ct, hm.pa⟩
+      · intro he
+        obtain ⟨d0, d1, d2, d3⟩ := c5 (Or.inr he)
+        have hm := hX.monoNV (st' := .hCSeq) d2 d3 (by decide) (by decide)
+        exact ⟨hm.from_, hm.to, hm.callid, d0, d1, hm.clen, hm.expires, hm.ct, hm.pa⟩
+    · simp only [hp, Bool.false_eq_true, ↓reduceIte] at hr ⊢
+      exact hskip hr
+  simp only [h_cseq, Bool.false_eq_true, ↓reduceIte] at hr ⊢
+  by_cases h_clen : (h.type == HdrCLen) = true
+  · simp only [h_clen, ↓reduceIte] at hr ⊢
+    by_cases hp : (!hv.clen.parsed) = true
+    · simp only [hp, ↓reduceIte] at hr ⊢
+      rcases hq : parseCLenVal t o hv.clen with ⟨n1, e1, f1⟩
+      rw [hq] at hr; simp only [Prod.mk.injEq] at hr
+      obtain ⟨rfl, rfl, rfl, rfl⟩ := hr
+      obtain ⟨c1, c4, c5⟩ := smClen_call pre t o hv.clen hfit h1 hS.clen hX.clen hq
+      simp only [c1]
+      refine ⟨_, shHv pre.size { hv with clen := f1 }, rfl, ?_, rfl, fun _ => rfl, ?_, ?_⟩
+      · exact Prod.ext rfl (Prod.ext rfl (Prod.ext
+          (smHdr_val pre.size h .hCLen e1 f1.sVal _ (hsn _ (by decide) (by decide)) c4) rfl))
+      · intro he
+        obtain ⟨d1, d2, d3⟩ := c5 (Or.inl he)
+        have hm := hX.monoNV d2 d3 hn1 hn2
+        exact ⟨hm.from_, hm.to, hm.callid, hm.cseqP, hm.cseqL, d1, hm.expires, hm.ct, hm.pa⟩
+      · intro he
+        obtain ⟨d1, d2, d3⟩ := c5 (Or.inr he)
+        have hm := hX.monoNV (st' := .hCLen) d2 d3 (by decide) (by decide)
+        exact ⟨hm.from_, hm.to, hm.callid, hm.cseqP, hm.cseqL, d1, hm.expires, hm.ct, hm.pa⟩
+    · simp only [hp, Bool.false_eq_true, ↓reduceIte] at hr ⊢
+      exact hskip hr
+  simp only [h_clen, Bool.false_eq_true, ↓reduceIte] at hr ⊢
+  by_cases h_contacts : (h.type == HdrContact) = true
+  · simp only [h_contacts, ↓reduceIte] at hr ⊢
+    have hc0 : (if h.state != .hContact then { hv.contacts with hNo := hv.contacts.hNo + 1, lastHVal := {} } else hv.contacts) =
+        { hv.contacts with hNo := hv.contacts.hNo + 1, lastHVal := {} } := by rw [hst]; rfl
+    have hc0' : (if (shHdr pre.size h).state != .hContact then
+          { shCt pre.size hv.contacts with hNo := (shCt pre.size hv.contacts).hNo + 1, lastHVal := {} }
+        else shCt pre.size hv.contacts) =
+        { shCt pre.size hv.contacts with hNo := hv.contacts.hNo + 1, lastHVal := {} } := by
+      show (if h.state != .hContact then _ else _) = _
+      rw [hst]; rfl
+    rw [hc0] at hr
+    simp only [hc0']
+    obtain ⟨R, M⟩ := smCt_start pre t o hv.contacts (hv.contacts.hNo + 1) hfit ho (hS.ctI (by decide))
+    rcases hq : parseAllContactValues t o { hv.contacts with hNo := hv.contacts.hNo + 1, lastHVal := {} } with ⟨n1, e1, f1⟩
+    rcases hq' : parseAllContactValues (pre ++ t) (pre.size + o)
+      { shCt pre.size hv.contacts with hNo := hv.contacts.hNo + 1, lastHVal := {} } with ⟨n', e', f'⟩
+    rw [hq, hq'] at R
+    rw [hq] at M hr
+    simp only [Prod.mk.injEq] at hr
+    obtain ⟨rfl, rfl, rfl, rfl⟩ := hr
+    obtain ⟨r1, r2, r3, r4⟩ := R
+    simp only at r1 r2 r3 r4 M
+    subst r1 r2
+    refine ⟨_, { shHv pre.size hv with contacts := f' }, rfl, ?_, ?_, ?_, ?_, ?_⟩
+    · refine Prod.ext rfl (Prod.ext rfl (Prod.ext
+        (smHdr_val pre.size h .hContact e' f1.lastHVal f'.lastHVal (hsn _ (by decide) (by decide)) ?_) rfl))
+      intro he; rw [r3 (Or.inl he)]; rfl
+    · unfold smHvObs shHv; simp only [r4]
+    · intro hx
+      rw [r3 (smExact_ok_or hx (by
+        have := parseAllContactValues_ne_empty t o { hv.contacts with hNo := hv.contacts.hNo + 1, lastHVal := {} }
+        rw [hq] at this; exact this))]
+      rfl
+    · intro he
+      obtain ⟨d2, d3⟩ := hrange (Or.inl he)
+      have hm := hX.monoNV d2 d3 hn1 hn2
+      exact ⟨hm.from_, hm.to, hm.callid, hm.cseqP, hm.cseqL, hm.clen, hm.expires, (fun hh => by cases hh), hm.pa⟩
+    · intro he
+      obtain ⟨d2, d3⟩ := hrange (Or.inr he)
+      have hm := hX.monoNV d2 d3 hn1 hn2
+      exact ⟨hm.from_, hm.to, hm.callid, hm.cseqP, hm.cseqL, hm.clen, hm.expires, fun _ => M he, fun hh => by cases hh⟩
+  simp only [h_contacts, Bool.false_eq_true, ↓reduceIte] at hr ⊢
+  by_cases h_expires : (h.type == HdrExpires) = true
+  · simp only [h_expires, ↓reduceIte] at hr ⊢
+    by_cases hp : (!hv.expires.parsed) = true
+    · simp only [hp, ↓reduceIte] at hr ⊢
+      rcases hq : parseUIntVal t o hv.expires with ⟨n1, e1, f1⟩
+      rw [hq] at hr; simp only [Prod.mk.injEq] at hr
+      obtain ⟨rfl, rfl, rfl, rfl⟩ := hr
+      obtain ⟨c1, c4, c5, d2, d3⟩ := smCl_call pre t o hv.expires hfit h1 hS.expires hX.expires hq
+      simp only [c1]
+      refine ⟨_, shHv pre.size { hv with expires := f1 }, rfl, ?_, rfl, fun _ => rfl, ?_, ?_⟩
+      · exact Prod.ext rfl (Prod.ext rfl (Prod.ext
+          (smHdr_val pre.size h .hExpires e1 f1.sVal _ (hsn _ (by decide) (by decide)) c4) rfl))
+      · intro he
+        have hm := hX.monoNV d2 d3 hn1 hn2
+        exact ⟨hm.from_, hm.to, hm.callid, hm.cseqP, hm.cseqL, hm.clen, c5 (Or.inl he), hm.ct, hm.pa⟩
+      · intro he
+        have hm := hX.monoNV (st' := .hExpires) d2 d3 (by decide) (by decide)
+        exact ⟨hm.from_, hm.to, hm.callid, hm.cseqP, hm.cseqL, hm.clen, c5 (Or.inr he), hm.ct, hm.pa⟩
+    · simp only [hp, Bool.false_eq_true, ↓reduceIte] at hr ⊢
+      exact hskip hr
+  simp only [h_expires, Bool.false_eq_true, ↓reduceIte] at hr ⊢
+  by_cases h_pais : (h.type == HdrPAI) = true
+  · simp only [h_pais, ↓reduceIte] at hr ⊢
+    have hc0 : (if h.state != .hPAI then { hv.pais with hNo := hv.pais.hNo + 1, lastHVal := {} } else hv.pais) =
+        { hv.pais with hNo := hv.pais.hNo + 1, lastHVal := {} } := by rw [hst]; rfl
+    have hc0' : (if (shHdr pre.size h).state != .hPAI then
+          { shPa pre.size hv.pais with hNo := (shPa pre.size hv.pais).hNo + 1, lastHVal := {} }
+        else shPa pre.size hv.pais) =
+        { shPa pre.size hv.pais with hNo := hv.pais.hNo + 1, lastHVal := {} } := by
+      show (if h.state != .hPAI then _ else _) = _
+      rw [hst]; rfl
+    rw [hc0] at hr
+    simp only [hc0']
+    obtain ⟨R, M⟩ := smPa_start pre t o hv.pais (hv.pais.hNo + 1) hfit ho (hS.paI (by decide))
+    rcases hq : parseAllPAIValues t o { hv.pais with hNo := hv.pais.hNo + 1, lastHVal := {} } with ⟨n1, e1, f1⟩
+    rcases hq' : parseAllPAIValues (pre ++ t) (pre.size + o)
+      { shPa pre.size hv.pais with hNo := hv.pais.hNo + 1, lastHVal := {} } with ⟨n', e', f'⟩
+    rw [hq, hq'] at R
+    rw [hq] at M hr
+    simp only [Prod.mk.injEq] at hr
+    obtain ⟨rfl, rfl, rfl, rfl⟩ := hr
+    obtain ⟨r1, r2, r3, r4⟩ := R
+    simp only at r1 r2 r3 r4 M
+    subst r1 r2
+    refine ⟨_, { shHv pre.size hv with pais := f' }, rfl, ?_, ?_, ?_, ?_, ?_⟩
+    · refine Prod.ext rfl (Prod.ext rfl (Prod.ext
+        (smHdr_val pre.size h .hPAI e' f1.lastHVal f'.lastHVal (hsn _ (by decide) (by decide)) ?_) rfl))
+      intro he; rw [r3 (Or.inl he)]; rfl
+    · unfold smHvObs shHv; simp only [r4]
+    · intro hx
+      rw [r3 (smExact_ok_or hx (by
+        have := parseAllPAIValues_ne_empty t o { hv.pais with hNo := hv.pais.hNo + 1, lastHVal := {} }
+        rw [hq] at this; exact this))]
+      rfl
+    · intro he
+      obtain ⟨d2, d3⟩ := hrange (Or.inl he)
+      have hm := hX.monoNV d2 d3 hn1 hn2
+      exact ⟨hm.from_, hm.to, hm.callid, hm.cseqP, hm.cseqL, hm.clen, hm.expires, hm.ct, fun hh => by cases hh⟩
+    · intro he
+      obtain ⟨d2, d3⟩ := hrange (Or.inr he)
+      have hm := hX.monoNV d2 d3 hn1 hn2
+      exact ⟨hm.from_, hm.to, hm.callid, hm.cseqP, hm.cseqL, hm.clen, hm.expires, (fun hh => by cases hh), fun _ => M he⟩
+  simp only [h_pais, Bool.false_eq_true, ↓reduceIte] at hr ⊢
+  exact hskip hr
+
 /-! ### a relational version of the generic loop theorem -/
 
 section loop
@@ -534,5 +868,258 @@ theorem runLoop_shiftR (m : Machine σ) (pre t : Buf) (sh : σ → σ) (R : Err 
             exact ⟨rfl, rfl, hrefl _ _⟩
 
 end loop
+
+/-! ### the header-line loop: invariant and steps -/
+
+/-- **what the shift theorems need of the (header, values) pair** at loop position `i`, in addition to the
+    panic-freedom invariant `HlSafe` and `hlInv`: outside the initial state the position is `≥ 1`; a value being
+    scanned starts at a position `≥ 1`; a complete name is not the zero field; the values object is legitimate
+    (`HvSh`). Holds for a new header with new / idle values at any offset (`HlSh_new`), and again after OK and
+    after MoreBytes at the returned offset (`parseHdrLine_shift`). -/
+structure HlSh (t : Buf) (i : Nat) (st : HLσ) : Prop where
+  pos : st.1.state ≠ .init → 1 ≤ i
+  valNz : st.1.state = .val ∨ st.1.state = .valEnd → 1 ≤ st.1.val.offs
+  nameNz : st.1.state ≠ .init → st.1.state ≠ .name → st.1.state ≠ .fin → 1 ≤ st.1.name.offs + st.1.name.len
+  hv : ∀ hv, st.2 = some hv → HvSh t i st.1.state hv
+
+/-- what a step establishes: the invariant after a continuing step, and at the returned offset after OK / MoreBytes -/
+def smPost (t : Buf) : Step HLσ → Prop :=
+  StepAll2 (HlSh t) (fun n e st => (e = .ok ∨ e = .moreBytes) → HlSh t n st)
+
+theorem smRelHL_mk (k : Nat) (e : Err) (H' H : Hdr) (a' a : PHdrVals) (h1 : H' = shHdr k H)
+    (h2 : smHvObs a' = smHvObs (shHv k a)) (h3 : smExact e → a' = shHv k a) :
+    smRelHL k e (H', some a') (H, some a) := by
+  subst h1
+  refine ⟨?_, fun hx => by rw [h3 hx]; rfl⟩
+  unfold smHLObs shHL
+  simp only [Option.map_some, h2]
+
+/-- the header returned by a finished value parser -/
+theorem smHdr_fin (k : Nat) (h : Hdr) (e : Err) (V V' : PField)
+    (hs : shHn k .fin h.name = shHn k h.state h.name) (hV : e = .ok → V' = shO k V) :
+    (if e == .ok then ({ shHdr k h with val := V', state := .fin } : Hdr) else shHdr k h) =
+      shHdr k (if e == .ok then { h with val := V, state := .fin } else h) := by
+  by_cases he : e = .ok
+  · subst he
+    simp only [beq_self_eq_true, ↓reduceIte]
+    unfold shHdr
+    simp only [hs, hV rfl]
+  · have : (e == Err.ok) = false := by simpa using he
+    simp only [this, Bool.false_eq_true, ↓reduceIte]
+
+theorem smHn_fin (k : Nat) (st : HState) (f : PField) (hv : st.isVal) (hnz : 1 ≤ f.offs + f.len) :
+    shHn k .fin f = shHn k st f := by
+  have e1 : shHn k .fin f = shF k f := by show shO k f = _; exact sl_shO_of_pos k f hnz
+  rw [e1]
+  rcases hv with h | h | h | h | h | h | h | h <;> rw [h] <;> rfl
+
+theorem smIf_state (h : Hdr) (e : Err) (V : PField) (he : e = .ok) :
+    (if e == .ok then ({ h with val := V, state := .fin } : Hdr) else h).state = .fin := by
+  subst he; rfl
+
+theorem smIf_more (h : Hdr) (e : Err) (V : PField) (he : e = .moreBytes) :
+    (if e == .ok then ({ h with val := V, state := .fin } : Hdr) else h) = h := by
+  subst he; rfl
+
+/-- the pair returned by a finished / suspended value parser satisfies the invariant again -/
+theorem smPost_val (t : Buf) (i n : Nat) (h : Hdr) (e : Err) (V : PField) (hv2 : PHdrVals) (h1 : 1 ≤ i) (hin : e = .ok ∨ e = .moreBytes → i ≤ n)
+    (hisv : h.state.isVal) (hnz : 1 ≤ h.name.offs + h.name.len)
+    (hok : e = .ok → HvSh t n .fin hv2) (hmore : e = .moreBytes → HvSh t n h.state hv2) :
+    (e = .ok ∨ e = .moreBytes) →
+      HlSh t n ((if e == .ok then ({ h with val := V, state := .fin } : Hdr) else h), some hv2) := by
+  intro he
+  have hn := hin he
+  rcases he with he | he
+  · have hs := smIf_state h e V he
+    refine ⟨fun _ => by omega, fun hh => ?_, fun _ _ hh => absurd hs hh, fun hv' hh => ?_⟩
+    · simp only at hh; rw [hs] at hh; rcases hh with hh | hh <;> cases hh
+    · simp only at hh ⊢; cases hh; rw [hs]; exact hok he
+  · have hs := smIf_more h e V he
+    refine ⟨fun _ => by omega, fun hh => ?_, fun _ _ _ => ?_, fun hv' hh => ?_⟩
+    · simp only at hh; rw [hs] at hh
+      exfalso
+      rcases hisv with g | g | g | g | g | g | g | g <;> rw [g] at hh <;> rcases hh with hh | hh <;> cases hh
+    · simp only; rw [hs]; exact hnz
+    · simp only at hh ⊢; cases hh; rw [hs]; exact hmore he
+
+theorem smHlCont (pre t : Buf) (i : Nat) (h : Hdr) (hv : PHdrVals) (hfit : pre.size + t.size ≤ 65535)
+    (H : HlSafe t i (h, some hv)) (hI : hlInv t i (h, some hv)) (hX : HlSh t i (h, some hv)) (hisv : h.state.isVal) :
+    smStepRel pre.size (shHL pre.size) (smRelHL pre.size)
+        (hlCont (pre ++ t) (pre.size + i) (shHdr pre.size h) (some (shHv pre.size hv))) (hlCont t i h (some hv)) ∧
+      smPost t (hlCont t i h (some hv)) := by
+  have hi : i ≤ t.size := H.hi
+  have hS : HvSafe t i h.state hv := H.hv hv rfl
+  have hXv : HvSh t i h.state hv := hX.hv hv rfl
+  have hok : hvOK t i hv := hI.2.2
+  have hne : h.state ≠ .init := by
+    intro hh; rw [hh] at hisv; unfold HState.isVal at hisv; simp at hisv
+  have h1 : 1 ≤ i := hX.pos hne
+  have hnz : 1 ≤ h.name.offs + h.name.len := by
+    refine hX.nameNz hne ?_ ?_ <;> (intro hh; rw [hh] at hisv; unfold HState.isVal at hisv; simp at hisv)
+  have hsf := smHn_fin pre.size h.state h.name hisv hnz
+  have hrange : ∀ {n : Nat} {e : Err} {st' : HLσ}, hlCont t i h (some hv) = .done n e st' →
+      (e = .ok ∨ e = .moreBytes) → i ≤ n ∧ n ≤ t.size := by
+    intro n e st' hs
+    obtain ⟨_, _, _, _, _, _, r, _⟩ := hlCont_safe t i h hv hi (by omega) hok hS hisv H.pnc H.nameF H.valF H.valIn hs
+    exact r
+  unfold smPost
+  unfold hlCont parseFromVal at hrange ⊢
+  simp only [shHdr_state, shHv_from, shHv_to, shHv_callid, shHv_cseq, shHv_clen, shHv_contacts, shHv_pais,
+    shHv_expires] at hrange ⊢
+  cases hst : h.state <;> simp only [hst] at hrange hS hXv ⊢
+  case init | name | nameEnd | bodyStart | val | valEnd | fin =>
+    rw [hst] at hisv; unfold HState.isVal at hisv; simp at hisv
+  case hFrom =>
+    rcases hq : parseNameAddrPVal HdrFrom t i hv.from_ with ⟨n1, e1, f1⟩
+    obtain ⟨f', c1, c2, c3, c4, c5⟩ := smNa_call HdrFrom pre t i hv.from_ hfit hXv.from_ hq
+    rw [hq] at hrange
+    simp only [c1]
+    have hr := hrange rfl
+    refine ⟨⟨rfl, rfl, smRelHL_mk _ _ _ _ { shHv pre.size hv with from_ := f' } _
+      (smHdr_fin pre.size h e1 f1.v f'.v hsf c4) (by unfold smHvObs shHv; simp only [c2])
+      (fun hx => by rw [c3 hx]; rfl)⟩, ?_⟩
+    refine smPost_val t i n1 h e1 f1.v _ h1 (fun he => (hr he).1) hisv hnz (fun he => ?_) (fun he => ?_)
+    · obtain ⟨d2, d3⟩ := hr (Or.inl he)
+      have hm := hXv.monoNV (st' := .fin) d2 d3 (by decide) (by decide)
+      exact ⟨(c5 (Or.inl he)).1, hm.to, hm.callid, hm.cseqP, hm.cseqL, hm.clen, hm.expires, hm.ct, hm.pa⟩
+    · obtain ⟨d2, d3⟩ := hr (Or.inr he)
+      rw [hst]
+      have hm := hXv.monoNV (st' := .hFrom) d2 d3 (by decide) (by decide)
+      exact ⟨(c5 (Or.inr he)).1, hm.to, hm.callid, hm.cseqP, hm.cseqL, hm.clen, hm.expires, hm.ct, hm.pa⟩
+  case hTo =>
+    rcases hq : parseNameAddrPVal HdrTo t i hv.to with ⟨n1, e1, f1⟩
+    obtain ⟨f', c1, c2, c3, c4, c5⟩ := smNa_call HdrTo pre t i hv.to hfit hXv.to hq
+    rw [hq] at hrange
+    simp only [c1]
+    have hr := hrange rfl
+    refine ⟨⟨rfl, rfl, smRelHL_mk _ _ _ _ { shHv pre.size hv with to := f' } _
+      (smHdr_fin pre.size h e1 f1.v f'.v hsf c4) (by unfold smHvObs shHv; simp only [c2])
+      (fun hx => by rw [c3 hx]; rfl)⟩, ?_⟩
+    refine smPost_val t i n1 h e1 f1.v _ h1 (fun he => (hr he).1) hisv hnz (fun he => ?_) (fun he => ?_)
+    · obtain ⟨d2, d3⟩ := hr (Or.inl he)
+      have hm := hXv.monoNV (st' := .fin) d2 d3 (by decide) (by decide)
+      exact ⟨hm.from_, (c5 (Or.inl he)).1, hm.callid, hm.cseqP, hm.cseqL, hm.clen, hm.expires, hm.ct, hm.pa⟩
+    · obtain ⟨d2, d3⟩ := hr (Or.inr he)
+      rw [hst]
+      have hm := hXv.monoNV (st' := .hTo) d2 d3 (by decide) (by decide)
+      exact ⟨hm.from_, (c5 (Or.inr he)).1, hm.callid, hm.cseqP, hm.cseqL, hm.clen, hm.expires, hm.ct, hm.pa⟩
+  case hCallID =>
+    rcases hq : parseCallIDVal t i hv.callid with ⟨n1, e1, f1⟩
+    obtain ⟨c1, c4, c5, _, _⟩ := smCi_call pre t i hv.callid hfit h1 hS.callid hXv.callid hq
+    rw [hq] at hrange
+    simp only [c1]
+    have hr := hrange rfl
+    refine ⟨⟨rfl, rfl, smRelHL_mk _ _ _ _ (shHv pre.size { hv with callid := f1 }) _
+      (smHdr_fin pre.size h e1 f1.callID _ hsf c4) rfl (fun _ => rfl)⟩, ?_⟩
+    refine smPost_val t i n1 h e1 f1.callID _ h1 (fun he => (hr he).1) hisv hnz (fun he => ?_) (fun he => ?_)
+    · obtain ⟨d2, d3⟩ := hr (Or.inl he)
+      have hm := hXv.monoNV (st' := .fin) d2 d3 (by decide) (by decide)
+      exact ⟨hm.from_, hm.to, c5 (Or.inl he), hm.cseqP, hm.cseqL, hm.clen, hm.expires, hm.ct, hm.pa⟩
+    · obtain ⟨d2, d3⟩ := hr (Or.inr he)
+      rw [hst]
+      have hm := hXv.monoNV (st' := .hCallID) d2 d3 (by decide) (by decide)
+      exact ⟨hm.from_, hm.to, c5 (Or.inr he), hm.cseqP, hm.cseqL, hm.clen, hm.expires, hm.ct, hm.pa⟩
+  case hCSeq =>
+    rcases hq : parseCSeqVal t i hv.cseq with ⟨n1, e1, f1⟩
+    obtain ⟨c1, c4, c5⟩ := smCs_call pre t i hv.cseq hfit h1 hS.cseq hXv.cseqP hXv.cseqL hq
+    rw [hq] at hrange
+    simp only [c1]
+    have hr := hrange rfl
+    refine ⟨⟨rfl, rfl, smRelHL_mk _ _ _ _ (shHv pre.size { hv with cseq := f1 }) _
+      (smHdr_fin pre.size h e1 f1.v _ hsf c4) rfl (fun _ => rfl)⟩, ?_⟩
+    refine smPost_val t i n1 h e1 f1.v _ h1 (fun he => (hr he).1) hisv hnz (fun he => ?_) (fun he => ?_)
+    · obtain ⟨d2, d3⟩ := hr (Or.inl he)
+      have hm := hXv.monoNV (st' := .fin) d2 d3 (by decide) (by decide)
+      exact ⟨hm.from_, hm.to, hm.callid, (c5 (Or.inl he)).1, (c5 (Or.inl he)).2.1, hm.clen, hm.expires, hm.ct, hm.pa⟩
+    · obtain ⟨d2, d3⟩ := hr (Or.inr he)
+      rw [hst]
+      have hm := hXv.monoNV (st' := .hCSeq) d2 d3 (by decide) (by decide)
+      exact ⟨hm.from_, hm.to, hm.callid, (c5 (Or.inr he)).1, (c5 (Or.inr he)).2.1, hm.clen, hm.expires, hm.ct, hm.pa⟩
+  case hCLen =>
+    rcases hq : parseCLenVal t i hv.clen with ⟨n1, e1, f1⟩
+    obtain ⟨c1, c4, c5⟩ := smClen_call pre t i hv.clen hfit h1 hS.clen hXv.clen hq
+    rw [hq] at hrange
+    simp only [c1]
+    have hr := hrange rfl
+    refine ⟨⟨rfl, rfl, smRelHL_mk _ _ _ _ (shHv pre.size { hv with clen := f1 }) _
+      (smHdr_fin pre.size h e1 f1.sVal _ hsf c4) rfl (fun _ => rfl)⟩, ?_⟩
+    refine smPost_val t i n1 h e1 f1.sVal _ h1 (fun he => (hr he).1) hisv hnz (fun he => ?_) (fun he => ?_)
+    · obtain ⟨d2, d3⟩ := hr (Or.inl he)
+      have hm := hXv.monoNV (st' := .fin) d2 d3 (by decide) (by decide)
+      exact ⟨hm.from_, hm.to, hm.callid, hm.cseqP, hm.cseqL, (c5 (Or.inl he)).1, hm.expires, hm.ct, hm.pa⟩
+    · obtain ⟨d2, d3⟩ := hr (Or.inr he)
+      rw [hst]
+      have hm := hXv.monoNV (st' := .hCLen) d2 d3 (by decide) (by decide)
+      exact ⟨hm.from_, hm.to, hm.callid, hm.cseqP, hm.cseqL, (c5 (Or.inr he)).1, hm.expires, hm.ct, hm.pa⟩
+  case hExpires =>
+    rcases hq : parseUIntVal t i hv.expires with ⟨n1, e1, f1⟩
+    obtain ⟨c1, c4, c5, _, _⟩ := smCl_call pre t i hv.expires hfit h1 hS.expires hXv.expires hq
+    rw [hq] at hrange
+    simp only [c1]
+    have hr := hrange rfl
+    refine ⟨⟨rfl, rfl, smRelHL_mk _ _ _ _ (shHv pre.size { hv with expires := f1 }) _
+      (smHdr_fin pre.size h e1 f1.sVal _ hsf c4) rfl (fun _ => rfl)⟩, ?_⟩
+    refine smPost_val t i n1 h e1 f1.sVal _ h1 (fun he => (hr he).1) hisv hnz (fun he => ?_) (fun he => ?_)
+    · obtain ⟨d2, d3⟩ := hr (Or.inl he)
+      have hm := hXv.monoNV (st' := .fin) d2 d3 (by decide) (by decide)
+      exact ⟨hm.from_, hm.to, hm.callid, hm.cseqP, hm.cseqL, hm.clen, c5 (Or.inl he), hm.ct, hm.pa⟩
+    · obtain ⟨d2, d3⟩ := hr (Or.inr he)
+      rw [hst]
+      have hm := hXv.monoNV (st' := .hExpires) d2 d3 (by decide) (by decide)
+      exact ⟨hm.from_, hm.to, hm.callid, hm.cseqP, hm.cseqL, hm.clen, c5 (Or.inr he), hm.ct, hm.pa⟩
+  case hContact =>
+    obtain ⟨R, M⟩ := parseAllContactValues_shift' pre t i hv.contacts hfit (hXv.ct rfl)
+    rcases hq : parseAllContactValues t i hv.contacts with ⟨n1, e', f1⟩
+    rw [hq] at R M hrange
+    obtain ⟨f', hq'⟩ : ∃ f', parseAllContactValues (pre ++ t) (pre.size + i) (shCt pre.size hv.contacts) =
+        (pre.size + n1, e', f') :=
+      ⟨(parseAllContactValues (pre ++ t) (pre.size + i) (shCt pre.size hv.contacts)).2.2, Prod.ext R.1 (Prod.ext R.2.1 rfl)⟩
+    rw [hq'] at R
+    obtain ⟨_, _, r3, r4⟩ := R
+    simp only at r3 r4 M
+    simp only [hq']
+    have hr := hrange rfl
+    have hne' : e' ≠ .empty := by
+      have := parseAllContactValues_ne_empty t i hv.contacts
+      rw [hq] at this; exact this
+    refine ⟨⟨rfl, rfl, smRelHL_mk _ _ _ _ { shHv pre.size hv with contacts := f' } _
+      (smHdr_fin pre.size h e' f1.lastHVal f'.lastHVal hsf (fun he => by rw [r3 (Or.inl he)]; rfl))
+      (by unfold smHvObs shHv; simp only [r4])
+      (fun hx => by rw [r3 (smExact_ok_or hx hne')]; rfl)⟩, ?_⟩
+    refine smPost_val t i n1 h e' f1.lastHVal _ h1 (fun he => (hr he).1) hisv hnz (fun he => ?_) (fun he => ?_)
+    · obtain ⟨d2, d3⟩ := hr (Or.inl he)
+      have hm := hXv.monoNV (st' := .fin) d2 d3 (by decide) (by decide)
+      exact ⟨hm.from_, hm.to, hm.callid, hm.cseqP, hm.cseqL, hm.clen, hm.expires, (fun hh => by cases hh), hm.pa⟩
+    · obtain ⟨d2, d3⟩ := hr (Or.inr he)
+      rw [hst]
+      have hm := hXv.monoNV (st' := .fin) d2 d3 (by decide) (by decide)
+      exact ⟨hm.from_, hm.to, hm.callid, hm.cseqP, hm.cseqL, hm.clen, hm.expires, (fun _ => M he), (fun hh => by cases hh)⟩
+  case hPAI =>
+    obtain ⟨R, M⟩ := parseAllPAIValues_shift' pre t i hv.pais hfit (hXv.pa rfl)
+    rcases hq : parseAllPAIValues t i hv.pais with ⟨n1, e', f1⟩
+    rw [hq] at R M hrange
+    obtain ⟨f', hq'⟩ : ∃ f', parseAllPAIValues (pre ++ t) (pre.size + i) (shPa pre.size hv.pais) =
+        (pre.size + n1, e', f') :=
+      ⟨(parseAllPAIValues (pre ++ t) (pre.size + i) (shPa pre.size hv.pais)).2.2, Prod.ext R.1 (Prod.ext R.2.1 rfl)⟩
+    rw [hq'] at R
+    obtain ⟨_, _, r3, r4⟩ := R
+    simp only at r3 r4 M
+    simp only [hq']
+    have hr := hrange rfl
+    have hne' : e' ≠ .empty := by
+      have := parseAllPAIValues_ne_empty t i hv.pais
+      rw [hq] at this; exact this
+    refine ⟨⟨rfl, rfl, smRelHL_mk _ _ _ _ { shHv pre.size hv with pais := f' } _
+      (smHdr_fin pre.size h e' f1.lastHVal f'.lastHVal hsf (fun he => by rw [r3 (Or.inl he)]; rfl))
+      (by unfold smHvObs shHv; simp only [r4])
+      (fun hx => by rw [r3 (smExact_ok_or hx hne')]; rfl)⟩, ?_⟩
+    refine smPost_val t i n1 h e' f1.lastHVal _ h1 (fun he => (hr he).1) hisv hnz (fun he => ?_) (fun he => ?_)
+    · obtain ⟨d2, d3⟩ := hr (Or.inl he)
+      have hm := hXv.monoNV (st' := .fin) d2 d3 (by decide) (by decide)
+      exact ⟨hm.from_, hm.to, hm.callid, hm.cseqP, hm.cseqL, hm.clen, hm.expires, hm.ct, (fun hh => by cases hh)⟩
+    · obtain ⟨d2, d3⟩ := hr (Or.inr he)
+      rw [hst]
+      have hm := hXv.monoNV (st' := .fin) d2 d3 (by decide) (by decide)
+      exact ⟨hm.from_, hm.to, hm.callid, hm.cseqP, hm.cseqL, hm.clen, hm.expires, (fun hh => by cases hh), (fun _ => M he)⟩
 
 end Sipsp
